@@ -134,8 +134,11 @@ def rule_frames(rep, idx):
             try:
                 low_pro = lower(idx, X, [pro])
                 low_epi = lower(idx, X, [epi])
-            except (NeedSplit, Thrown) as e:
-                rep.add('R1', key, False, where, 'lowering not uniform / fails: %s' % e)
+            except Thrown as e:
+                rep.add('R1', key, False, where, 'lowering fails: %s' % e.what)
+                continue
+            except NeedSplit as e:
+                rep.undecided('R1', key, 'lowering not uniform: %s' % e, where)
                 continue
             S = frame.fields['size'].aff
             SP0 = ({'SP0': 1}, 0)
@@ -206,11 +209,11 @@ def rule_stub(rep, idx):
     low = lower(idx, X, [sp], G)
     where = 'xcmp.hpp xcmp::LowerDirectives (SP_VALUE) / xcmp::CodeGen::visitPre(Program&)'
     if not low or low[0].cls != 'hexasm::Data':
-        rep.add('R2', 'sp-word', False, where, 'SP_VALUE is not lowered to a DATA word')
+        rep.undecided('R2', 'sp-word', 'SP_VALUE is not lowered to a single DATA word: shape not recognised', where)
         return
     sp0 = low[0].fields['value']
     if not (isinstance(sp0, IV) and sp0.aff is not None):
-        rep.add('R2', 'sp-word', False, where, 'initial stack pointer %r is not MAX - G - constant' % (sp0,))
+        rep.undecided('R2', 'sp-word', 'initial stack pointer %r is not an affine function of the array space: not decided' % (sp0,), where)
         return
     # interpret the stub generated by CodeGen::visitPre(Program&) and StmtCodeGen::visitPost(StopStatement&)
     rep.add('R2', 'sp-word', sp0.aff[0] == {'G': -1}, where, 'initial stack pointer = %s with G words of arrays (memory has %d words)' % (aff_str(sp0.aff), MAXW))
@@ -219,14 +222,17 @@ def rule_stub(rep, idx):
         M = c01.CodeGenModel(idx)
         try:
             getter(M)
-        except (NeedSplit, Thrown, AnalysisBroken) as e:
-            rep.add('R2', what, False, where, 'cannot derive the %s template: %s' % (what, e))
+        except Thrown as e:
+            rep.add('R2', what, False, where, 'generating the %s fails: %s' % (what, e.what))
+            continue
+        except (NeedSplit, AnalysisBroken) as e:
+            rep.undecided('R2', what, 'cannot derive the %s template: %s' % (what, e), where)
             continue
         acc = c01.slot_accesses(M)
         slots = [s[1][1] for s in acc if s[0] == 'store' and s[1][0] == 'sp' and isinstance(s[1][1], int)]
         top = max(slots) if slots else None
         if top is None:
-            rep.add('R2', what, False, where, 'no stack-pointer-relative store found in the %s' % what)
+            rep.undecided('R2', what, 'no stack-pointer-relative store found in the %s: shape not recognised' % what, where)
             continue
         # highest word touched = SP0 + top must be < MAX - G (below the arrays) hence < MAX
         hi = aff_add(sp0.aff, ({}, top))
@@ -271,8 +277,11 @@ def rule_outgoing(rep, idx):
             f0 = M.frame.fields['offset'].aff
             try:
                 M.X.visit_post(M.expr_visitor('A'), node)
-            except (NeedSplit, Thrown) as e:
-                rep.add('R3', key, False, where, 'code generation fails / not uniform: %s' % e)
+            except Thrown as e:
+                rep.add('R3', key, False, where, 'code generation fails: %s' % e.what)
+                continue
+            except NeedSplit as e:
+                rep.undecided('R3', key, 'not uniform: %s' % e, where)
                 continue
             acc = c01.slot_accesses(M)
             slots = [s[1][1] for s in acc if s[0] == 'store' and s[1][0] == 'sp' and isinstance(s[1][1], int)]
@@ -315,8 +324,11 @@ def rule_arrays(rep, idx):
     M.symbol('arr', 'ARRAY', '')
     try:
         M.I.invoke(f, cg, [decl])
-    except (NeedSplit, Thrown) as ex:
-        rep.add('R4', 'array-address', False, pos(f.node) + ' ' + f.qname, 'not uniform / fails: %s' % ex)
+    except Thrown as ex:
+        rep.add('R4', 'array-address', False, pos(f.node) + ' ' + f.qname, 'fails: %s' % ex.what)
+        return
+    except NeedSplit as ex:
+        rep.undecided('R4', 'array-address', 'not uniform: %s' % ex, pos(f.node) + ' ' + f.qname)
         return
     words = [d for d in M.data() if d.cls == 'hexasm::Data']
     addr = words[-1].fields['value'] if words else None
